@@ -11,7 +11,7 @@ import random
 import struct
 
 from . import extract, seqops
-from .contract import Const, FixedList, Obj, SeqOf, _Scalar
+from .contract import Const, Elem, Facade, FixedList, Link, Obj, OpaqueField, Region, SeqOf, _Scalar
 from .core import Explorer, Path, PyRaise
 from .interp import Interp
 from .interp_call import Frame, number_loops
@@ -77,6 +77,37 @@ def random_concrete(spec, rnd, size_hint=6):
     if isinstance(spec, FixedList):
         items = [random_concrete(s, rnd, size_hint) for s in spec.items]
         return items if spec.kind == "list" else tuple(items)
+    if isinstance(spec, Region):
+        cache = rnd.__dict__.setdefault("_regions", {})
+        if spec.name in cache:
+            return cache[spec.name]
+        n = rnd.randint(1, 7)
+        objs = [object.__new__(spec.cls) for _ in range(n)]
+        for k, o in enumerate(objs):
+            parent = None
+            for f, fs in spec.fields.items():
+                if isinstance(fs, Link):
+                    v = parent = None if k == 0 or rnd.random() < 0.3 else objs[rnd.randrange(k)]    # links go to earlier objects: a forest
+                elif isinstance(fs, Facade):
+                    v = object.__new__(fs.cls)
+                    object.__setattr__(v, fs.back, o)
+                elif isinstance(fs, OpaqueField):
+                    v = f"{spec.name}#{k}" if fs.pytype is str else fs.pytype()
+                elif fs.kind == "bool":
+                    v = rnd.random() < 0.5
+                else:
+                    v = rnd.randint(0, 3)
+                object.__setattr__(o, f, v)
+            if spec.depth:
+                object.__setattr__(o, spec.depth, 0 if parent is None else getattr(parent, spec.depth) + 1)
+            object.__setattr__(o, "g_region", objs)
+        cache[spec.name] = objs
+        return objs
+    if isinstance(spec, Elem):
+        objs = random_concrete(spec.region, rnd, size_hint)
+        if spec.optional and rnd.random() < 0.25:
+            return None
+        return rnd.choice(objs)
     raise Unsupported(f"spec {spec!r}")
 
 
@@ -245,6 +276,7 @@ def crosscheck_unit(ccls, case, n=12, seed=0):
     sample_iter = iter(sample_fn(rnd, **case) if case else sample_fn(rnd)) if sample_fn is not None else None
     while compared < n and tries < n * 30:
         tries += 1
+        rnd.__dict__["_regions"] = {}       # objects of a heap region are shared by the parameters of ONE sample
         try:
             args = {}
             given = next(sample_iter, None) if sample_iter is not None else None
@@ -325,7 +357,8 @@ def crosscheck_unit(ccls, case, n=12, seed=0):
         I.top_frame = frame
         memo = {}
         try:
-            eng_args = {p: lift_value(I, clone(args[p]), specs.get(p), memo) for p in params}
+            cloned = clone(args)        # one copy of all parameters together: objects shared between parameters stay shared
+            eng_args = {p: lift_value(I, cloned[p], specs.get(p), memo) for p in params}
             for p, v in eng_args.items():
                 frame.locals[p] = v
             if params:
